@@ -247,7 +247,48 @@ func genOCRAArgs(rng *gen.RNG, nstr int) c10Args {
 	return a
 }
 
+// twinDrivers: the exported operations that exist only in the js/wasm build configuration of the library
+// (DeriveRFC4226Wasm, ValidateOTPWasm), reachable here when the harness was built with the overlay that compiles those
+// sources natively. The digits parameter of the derive twin is an int: it is driven over -2^63..2^16 (beyond that an
+// unchecked power-of-ten loop would only spin, which the watchdog could not tell from slowness).
+func twinDrivers() []driver {
+	if wasmDerive == nil || wasmValidate == nil {
+		return extraDrivers()[:1]
+	}
+	return extraDrivers()
+}
+
+func extraDrivers() []driver {
+	twinArgs := func(rng *gen.RNG) c10Args {
+		d := gen.Pick(rng, []int64{-1 << 63, -1, 0, 1, 5, 6, 9, 10, 11, 12, 19, 20, 21, 63, 64, 65, 100, 127, 128, 200, 255, 256, 1000, 1 << 16, int64(rng.Intn(300))})
+		return c10Args{S: []string{hs(string(hostileBytes(rng))), hs(hostileString(rng))}, I: []int64{int64(rng.U64()), d}, U: []uint64{uint64(rng.Intn(256))}}
+	}
+	return []driver{
+		// the exported function-typed variable in its default (not caller-replaced) value
+		{"TimeCounterFunc(default value)", func(rng *gen.RNG) c10Args { return genParamArgs(rng, 1) }, func(a c10Args) {
+			p := paramFrom(a)
+			period := uint(0)
+			if p != nil {
+				period = p.Period
+			}
+			otp.TimeCounterFunc(a.At.Time(), period)
+		}},
+		{"DeriveRFC4226Wasm(js/wasm build)", twinArgs, func(a c10Args) { wasmDerive([]byte(uhs(a.S[0])), uint64(a.I[0]), int(a.I[1]), uint8(a.U[0])) }},
+		{"ValidateOTPWasm(js/wasm build)", twinArgs, func(a c10Args) {
+			wasmValidate(uhs(a.S[1]), []byte(uhs(a.S[0])), uint64(a.I[0]), uint8(a.I[1]), uint8(a.U[0]))
+			// also a submitted code of exactly the claimed length
+			if n := int(uint8(a.I[1])); n > 0 {
+				wasmValidate(strings.Repeat("7", n), []byte(uhs(a.S[0])), uint64(a.I[0]), uint8(a.I[1]), uint8(a.U[0]))
+			}
+		}},
+	}
+}
+
 func drivers() []driver {
+	return append(baseDrivers(), twinDrivers()...)
+}
+
+func baseDrivers() []driver {
 	str1 := func(rng *gen.RNG) c10Args { return c10Args{S: []string{hs(hostileString(rng))}} }
 	return []driver{
 		{"DecodeSecret", str1, func(a c10Args) { otp.DecodeSecret(uhs(a.S[0])) }},
